@@ -246,6 +246,19 @@ void h_step(void) {
       if (d_kind[gp] == K_PARALLEL && in_final[gp])
         __CPROVER_assert(sp_bit(G.done, gp), "C04.done: when the last region of a parallel state reaches a final state, done.state.<parallel> is raised");
     }
+    /* and no other done event: done.state.<s> needs a final child of s entered in this step, or s parallel with all
+       regions in a final state and a final grandchild entered in this step */
+    for (int s = 0; s < D_N; s++) {
+      if (!sp_bit(G.done, s)) continue;
+      int why = 0;
+      for (int f = 1; f < D_N; f++) {
+        if (d_kind[f] != K_FINAL || !sp_bit(g_ctx.config, f)) continue;
+        if (d_parent[f] == s && s != 0) why = 1;
+        if (d_parent[f] != 0 && d_parent[d_parent[f]] == s && d_kind[s] == K_PARALLEL && in_final[s]) why = 1;
+      }
+      wit_row = s;
+      __CPROVER_assert(why, "C04.done: a done event is raised only for the parent of an active final state or for a parallel state all of whose regions are in a final state");
+    }
   }
 
   /* C02: Inv is inductive */
